@@ -5,6 +5,8 @@ use crate::compression::flags;
 use crate::security::*;
 use crate::tables::{BlockEntry, HashEntry, HashTable};
 use crate::*;
+use byteorder::{LittleEndian, ReadBytesExt};
+use std::io::Cursor;
 
 pub fn stub_format(_args: core::fmt::Arguments<'_>) -> String {
     String::new()
@@ -212,3 +214,146 @@ tail_harness!(u04_5_tail_l9, 9);
 tail_harness!(u04_5_tail_l13, 13);
 // @harness unit=U04.5 props=C04 kind=bounded bound="byte length 17" tier=thorough timeout=1200 target="encrypt_data/decrypt_file_data/decrypt_table_data"
 tail_harness!(u04_5_tail_l17, 17);
+
+// ------------------------------------------------------------------------------------ E11 blocks
+/// E8 proxy for patch_chain::ChainEntry (which owns an Archive): only the field the block reads
+pub struct PrioProxy {
+    pub priority: i32,
+    pub tag: u8,
+}
+include!("verif_blocks.rs");
+
+fn sorted_desc(v: &Vec<PrioProxy>) -> bool {
+    let mut i = 1;
+    while i < v.len() {
+        if v[i - 1].priority < v[i].priority {
+            return false;
+        }
+        i += 1;
+    }
+    true
+}
+
+fn chain_insert_contract(pos: usize, v: &Vec<PrioProxy>, p: i32) {
+    assert!(pos <= v.len(), "insertion index in range");
+    let mut i = 0;
+    while i < v.len() {
+        if i < pos {
+            assert!(v[i].priority >= p, "everything before the new archive has priority >= it (earliest added wins ties)");
+        } else {
+            assert!(v[i].priority < p, "everything after the new archive has strictly lower priority");
+        }
+        i += 1;
+    }
+}
+
+fn any_chain(n: usize) -> Vec<PrioProxy> {
+    let mut v = Vec::new();
+    let mut i = 0;
+    while i < n {
+        v.push(PrioProxy { priority: kani::any(), tag: i as u8 });
+        i += 1;
+    }
+    v
+}
+
+// @harness unit=U08.3 props=C08 kind=bounded bound="chain length <= 4" timeout=600 target="patch_chain.rs: add_archive insertion index (E11 block)"
+#[kani::proof]
+#[kani::unwind(6)]
+#[kani::stub(alloc::fmt::format, stub_format)]
+fn u08_3_chain_insert_position() {
+    let n: usize = kani::any();
+    kani::assume(n <= 4);
+    let v = any_chain(n);
+    kani::assume(sorted_desc(&v));
+    let p: i32 = kani::any();
+    let pos = blk_chain_insert_pos(&v, p);
+    chain_insert_contract(pos, &v, p);
+}
+
+// @harness unit=U08.3 props=C08 kind=bounded bound="chain length <= 4" timeout=600 target="patch_chain.rs: set_priority re-insertion index (E11 block)"
+#[kani::proof]
+#[kani::unwind(6)]
+#[kani::stub(alloc::fmt::format, stub_format)]
+fn u08_3_chain_reinsert_position() {
+    let n: usize = kani::any();
+    kani::assume(n <= 4);
+    let v = any_chain(n);
+    kani::assume(sorted_desc(&v));
+    let p: i32 = kani::any();
+    let pos = blk_chain_reinsert_pos(&v, p);
+    chain_insert_contract(pos, &v, p);
+}
+
+// ------------------------------------------------------------------------------------ U08.2 / U05.6 (E11 blocks of apply_bsd0_patch)
+// @harness unit=U08.2 props=C08,C05 kind=complete timeout=300 target="patch/apply.rs: apply_bsd0_patch block positions (E11 block, all 64-bit field values)" oracle=bsd0_total
+#[kani::proof]
+#[kani::unwind(4)]
+#[kani::stub(alloc::fmt::format, stub_format)]
+fn u08_2_bsd0_block_positions() {
+    let ctrl: usize = kani::any();
+    let data: usize = kani::any();
+    let buf: [u8; 64] = kani::any();
+    let len: usize = kani::any();
+    kani::assume(len <= 64);
+    match blk_bsd0_block_positions(ctrl, data, &buf[..len]) {
+        Ok((c, d, e)) => {
+            assert!(c == 32 && c <= d && d <= e && e <= len, "block positions are ordered and inside the buffer");
+            assert!(d - c == ctrl && e - d == data, "block sizes are the header fields");
+        }
+        Err(e) => core::mem::forget(e),
+    }
+}
+
+// @harness unit=U08.2 props=C08,C05 kind=bounded bound="bsdiff buffer 50 bytes (header + 1 control triple + 6 payload bytes), output <= 6 bytes, base <= 4 bytes; all field values" timeout=900 target="patch/apply.rs: apply_bsd0_patch control loop (E11 block)" oracle=bsd0_total
+#[kani::proof]
+#[kani::unwind(8)]
+#[kani::stub(alloc::fmt::format, stub_format)]
+fn u08_2_bsd0_apply_ctrl() {
+    let buf: [u8; 50] = kani::any();
+    let data_start: usize = kani::any();
+    let extra_start: usize = kani::any();
+    kani::assume(32 <= data_start && data_start <= extra_start && extra_start <= 50 && data_start <= 44);
+    let new_size: usize = kani::any();
+    kani::assume(new_size <= 6);
+    let base: [u8; 4] = kani::any();
+    let blen: usize = kani::any();
+    kani::assume(blen <= 4);
+    match blk_bsd0_apply_ctrl(&buf, 32, data_start, extra_start, data_start - 32, new_size, &base[..blen]) {
+        Ok(v) => assert!(v.len() == new_size, "Ok output has the declared size"),
+        Err(e) => core::mem::forget(e),
+    }
+}
+
+// @harness unit=U08.3 props=C08 kind=bounded bound="chain length <= 4" timeout=600 target="patch_chain.rs: add_archives_parallel insertion index (E11 block)"
+#[kani::proof]
+#[kani::unwind(6)]
+#[kani::stub(alloc::fmt::format, stub_format)]
+fn u08_3_chain_parallel_insert_position() {
+    let n: usize = kani::any();
+    kani::assume(n <= 4);
+    let v = any_chain(n);
+    kani::assume(sorted_desc(&v));
+    let e = PrioProxy { priority: kani::any(), tag: 99 };
+    let pos = blk_chain_parallel_insert_pos(&v, &e);
+    chain_insert_contract(pos, &v, e.priority);
+}
+
+// from_archives_parallel: the initial ordering is descending by priority and stable (earliest listed wins ties)
+// @harness unit=U08.3 props=C08 kind=bounded bound="3 archives" timeout=900 target="patch_chain.rs: from_archives_parallel ordering (E11 block)"
+#[kani::proof]
+#[kani::unwind(6)]
+#[kani::stub(alloc::fmt::format, stub_format)]
+fn u08_3_chain_parallel_sort_stable() {
+    let mut v = any_chain(3);
+    blk_chain_parallel_sort(&mut v);
+    assert!(v.len() == 3);
+    assert!(sorted_desc(&v), "descending by priority");
+    let mut i = 1;
+    while i < 3 {
+        if v[i - 1].priority == v[i].priority {
+            assert!(v[i - 1].tag < v[i].tag, "equal priorities keep their listed order");
+        }
+        i += 1;
+    }
+}
